@@ -82,7 +82,13 @@ impl Model {
 }
 
 /// does some merge of the per-thread call lists reproduce the observed results?
-fn linearizable(calls: &[Vec<u64>], results: &[Vec<R>], pos: &mut Vec<usize>, model: &Model, final_min_unseen: u64) -> bool {
+fn linearizable(
+    calls: &[Vec<u64>],
+    results: &[Vec<R>],
+    pos: &mut Vec<usize>,
+    model: &Model,
+    final_min_unseen: u64,
+) -> bool {
     if (0..calls.len()).all(|t| pos[t] == calls[t].len()) {
         let expect = model.max.map(|m| m + 1).unwrap_or(0);
         return expect == final_min_unseen;
@@ -109,11 +115,18 @@ fn linearizable(calls: &[Vec<u64>], results: &[Vec<R>], pos: &mut Vec<usize>, mo
 fn receiver_scenario(name: &'static str, calls: &'static [&'static [u64]], what: &'static str) {
     let scn = Scenario::new(name, module_path!(), "c19.receiver")
         .cfg("threads", calls.len() as u64)
-        .cfg("calls", calls.iter().map(|c| c.iter().map(|v| *v).collect::<Vec<u64>>()).collect::<Vec<_>>())
+        .cfg(
+            "calls",
+            calls
+                .iter()
+                .map(|c| c.iter().map(|v| *v).collect::<Vec<u64>>())
+                .collect::<Vec<_>>(),
+        )
         .cfg("shape", what);
     sup::run(scn, move || {
         let state = Arc::new(State::new());
-        let results: Arc<StdMutex<Vec<Vec<R>>>> = Arc::new(StdMutex::new(vec![Vec::new(); calls.len()]));
+        let results: Arc<StdMutex<Vec<Vec<R>>>> =
+            Arc::new(StdMutex::new(vec![Vec::new(); calls.len()]));
         let mut handles = Vec::new();
         // thread 0 is the model's main thread
         for t in 1..calls.len() {
@@ -147,7 +160,12 @@ fn receiver_scenario(name: &'static str, calls: &'static [&'static [u64]], what:
         let mut dedup = ok_ids.clone();
         dedup.sort();
         dedup.dedup();
-        assert!(dedup.len() == ok_ids.len(), "a key id was accepted twice: calls {:?} results {:?}", calls, results);
+        assert!(
+            dedup.len() == ok_ids.len(),
+            "a key id was accepted twice: calls {:?} results {:?}",
+            calls,
+            results
+        );
 
         let all: Vec<Vec<u64>> = calls.iter().map(|c| c.to_vec()).collect();
         assert!(
@@ -163,7 +181,11 @@ fn receiver_scenario(name: &'static str, calls: &'static [&'static [u64]], what:
 
 #[test]
 fn c19_rx_same_id() {
-    receiver_scenario("c19_rx_same_id", &[&[5], &[5], &[5]], "3 threads present the same key id");
+    receiver_scenario(
+        "c19_rx_same_id",
+        &[&[5], &[5], &[5]],
+        "3 threads present the same key id",
+    );
 }
 
 #[test]
@@ -186,12 +208,20 @@ fn c19_rx_window_edge() {
 
 #[test]
 fn c19_rx_far_jump() {
-    receiver_scenario("c19_rx_far_jump", &[&[3, 1 << 33], &[3, 4]], "one far jump (clears the window) racing near ids");
+    receiver_scenario(
+        "c19_rx_far_jump",
+        &[&[3, 1 << 33], &[3, 4]],
+        "one far jump (clears the window) racing near ids",
+    );
 }
 
 #[test]
 fn c19_rx_three_threads() {
-    receiver_scenario("c19_rx_three_threads", &[&[0, 896], &[895], &[896, 0]], "3 threads, edge ids, duplicates across threads");
+    receiver_scenario(
+        "c19_rx_three_threads",
+        &[&[0, 896], &[895], &[896, 0]],
+        "3 threads, edge ids, duplicates across threads",
+    );
 }
 
 // ---------------------------------------------------------------------------------------------
@@ -219,7 +249,12 @@ fn sender_scenario(name: &'static str, stale: u64, what: &'static str) {
         let b = loom::thread::spawn(move || {
             s2.update_for_stale_key(VarInt::new(stale).unwrap());
             let z = s2.next_key_id().as_u64();
-            assert!(z >= stale, "id {} drawn after update_for_stale_key({})", z, stale);
+            assert!(
+                z >= stale,
+                "id {} drawn after update_for_stale_key({})",
+                z,
+                stale
+            );
             vec![z]
         });
         let w = state.next_key_id().as_u64();
@@ -236,10 +271,18 @@ fn sender_scenario(name: &'static str, stale: u64, what: &'static str) {
 
 #[test]
 fn c19_tx_next_vs_stale_small() {
-    sender_scenario("c19_tx_next_vs_stale_small", 2, "main: next || t1: next, next || t2: update_for_stale_key(2), next");
+    sender_scenario(
+        "c19_tx_next_vs_stale_small",
+        2,
+        "main: next || t1: next, next || t2: update_for_stale_key(2), next",
+    );
 }
 
 #[test]
 fn c19_tx_next_vs_stale_jump() {
-    sender_scenario("c19_tx_next_vs_stale_jump", 1000, "main: next || t1: next, next || t2: update_for_stale_key(1000), next");
+    sender_scenario(
+        "c19_tx_next_vs_stale_jump",
+        1000,
+        "main: next || t1: next, next || t2: update_for_stale_key(1000), next",
+    );
 }
